@@ -48,8 +48,8 @@ class Limits:
     halves the bounds (down to the floors) and after `max_hangs` hangs in one
     process the remaining cases of the main batch are not run at all but
     reported as hangs (the verdict is a VIOLATION anyway)."""
-    run = float(os.environ.get("VERIF_RUN_TIMEOUT", "6"))      # run()/join() must end within
-    step = float(os.environ.get("VERIF_STEP_TIMEOUT", "3"))    # one event must be consumed within
+    run = float(os.environ.get("VERIF_RUN_TIMEOUT", "10"))      # run()/join() must end within
+    step = float(os.environ.get("VERIF_STEP_TIMEOUT", "5"))    # one event must be consumed within
     run_floor, step_floor = 2.5, 1.0
     hangs = 0
     max_hangs = 10
